@@ -47,14 +47,18 @@ Theorem C02_ternary_refines :
 Proof. exact ternary_ref. Qed.
 Print Assumptions C02_ternary_refines.
 
-(* switch, both forms: first matching case, default, nothing *)
+(* switch, both forms: first matching case, default, nothing.  The parser leaves no node for a
+   trailing case / default without children ([drop_empty_tail]); [switch_tail_ok]: an empty default
+   renders nothing, and the test of a dropped last case is not an error (it is never evaluated) *)
 Theorem C02_switch_refines :
   forall flits lookup budget inc rlookup rinc L arg cases dflt (hd : bool),
     Forall (switch_case_ok flits lookup budget inc rlookup rinc L arg) cases ->
     items_ok flits lookup budget inc rlookup rinc false L dflt ->
+    switch_tail_ok flits budget rlookup rinc arg cases dflt hd ->
     node_ref flits lookup budget inc rlookup rinc L
-      (NSwitch arg (c_cases compile (match arg with [] => false | _ => true end) cases ++
-                    (if hd then [NBlock BDefault no_case (merge_raws (c_list compile dflt))] else [])))
+      (NSwitch arg (drop_empty_tail
+                      (c_cases compile (match arg with [] => false | _ => true end) cases ++
+                       (if hd then [NBlock BDefault no_case (merge_raws (c_list compile dflt))] else []))))
       (ASwitch arg cases dflt hd).
 Proof. exact switch_ref. Qed.
 Print Assumptions C02_switch_refines.
@@ -104,3 +108,57 @@ Theorem C02_ifok_negated_flag_not_a_name_disagrees :
   mout t_ifok_noname c_ifok = Some (B "F"%string, None) /\ rout t_ifok_noname c_ifok = (B "T"%string, SNone).
 Proof. exact F10_ifok_negated_flag_not_a_name. Qed.
 Print Assumptions C02_ifok_negated_flag_not_a_name_disagrees.
+
+(* ---- dropping the trailing block without children, on the interpreter side alone ---- *)
+
+(* the walk over the cases before it is the same; when none of them hits, the dropped list ends
+   there with no signal, the full list evaluates the trailing block *)
+Theorem C02_cases_with_drop_empty_tail :
+  forall flits lookup budget inc hit chk pre (B : node),
+    forallb (fun n => negb (is_default_block n)) pre = true ->
+    forall l c w,
+      cases_with (write_node flits lookup budget inc) hit chk (pre ++ [B]) (l ++ [B]) c w =
+      cases_with (write_node flits lookup budget inc) hit chk pre l c w \/
+      exists c_end,
+        cases_with (write_node flits lookup budget inc) hit chk pre l c w = Out c_end w None /\
+        cases_with (write_node flits lookup budget inc) hit chk (pre ++ [B]) (l ++ [B]) c w =
+        cases_with (write_node flits lookup budget inc) hit chk (pre ++ [B]) [B] c_end w.
+Proof. exact cases_with_drop_empty_tail. Qed.
+Print Assumptions C02_cases_with_drop_empty_tail.
+
+(* what the trailing block without children does: nothing is written; an empty default only
+   clears Ctx.Err; an empty case leaves what its test leaves in Ctx.Err / Ctx.BufB -- and returns
+   the error of that test, if it is one: the one observable difference of dropping it *)
+Theorem C02_trailing_empty_block :
+  forall flits lookup budget inc hit chk pre k ki c w,
+    forallb (fun n => negb (is_default_block n)) pre = true ->
+    cases_with (write_node flits lookup budget inc) hit chk (pre ++ [NBlock k ki []]) [NBlock k ki []] c w =
+    match k with
+    | BCase =>
+      let '(c1, h, e) := hit ki c in
+      match e with
+      | Some x => Out c1 w (Some x)
+      | None => match (if chk then cerr c1 else None) with
+                | Some x => Out c1 w (Some x)
+                | None => if h then Out (set_cerr None c1) w None else Out c1 w None
+                end
+      end
+    | BDefault => Out (set_cerr None c) w None
+    | _ => Out c w None
+    end.
+Proof. exact trailing_empty_block. Qed.
+Print Assumptions C02_trailing_empty_block.
+
+Theorem C02_dropped_last_case_test_disagrees :
+  mout t_switch_empty_last ctx_new = Some (B "az"%string, None) /\
+  rout t_switch_empty_last ctx_new = (B "a"%string, SErr ESenseless) /\
+  mout t_switch_empty_mid ctx_new = Some (B "a"%string, Some ESenseless) /\
+  rout t_switch_empty_mid ctx_new = (B "a"%string, SErr ESenseless).
+Proof. exact F11_dropped_last_case_test_not_evaluated. Qed.
+Print Assumptions C02_dropped_last_case_test_disagrees.
+
+From DT Require Import Proofs.RefineMain.
+Example C02_switch_empty_bodies_agree :
+  forallb (wf_supported true) t_switch_empty_cases = true /\
+  mout t_switch_empty_cases c_x1 = Some (B "||"%string, None) /\ rout t_switch_empty_cases c_x1 = (B "||"%string, SNone).
+Proof. exact switch_empty_bodies_agree. Qed.
